@@ -56,14 +56,16 @@ def lex(src):
         elif c == '"' or (c in "b" and src.startswith('b"', i)):
             start_line = line
             i += 2 if c == "b" else 1
+            lit0 = i
             while i < n and src[i] != '"':
                 if src[i] == "\\":
                     i += 1
                 if i < n and src[i] == "\n":
                     line += 1
                 i += 1
+            lit = src[lit0:i]
             i += 1
-            out.append(("str", "", start_line))
+            out.append(("str", "", start_line, lit))
         elif re.match(r'b?r#*"', src[i:i + 12]):
             m = re.match(r'b?r(#*)"', src[i:])
             hashes = m.group(1)
@@ -79,7 +81,7 @@ def lex(src):
             m = re.match(r"(\\.[^']*|[^\\'])'", src[j:j + 12])
             if m:
                 i = j + len(m.group(0))
-                out.append(("char", "", line))
+                out.append(("char", "", line, m.group(1)))
             else:
                 m = re.match(r"[A-Za-z_][A-Za-z0-9_]*", src[j:])
                 i = j + (len(m.group(0)) if m else 0)
@@ -95,7 +97,104 @@ def lex(src):
         else:
             out.append(("punct", c, line))
             i += 1
-    return out
+    global LAST_LITERALS
+    LAST_LITERALS = [(t[0], t[3], t[2]) for t in out if len(t) == 4]
+    return [t[:3] for t in out]
+
+
+LAST_LITERALS = []
+
+
+def unescape(lit):
+    """bytes denoted by the inside of a Rust string / byte-string / char literal (best effort)"""
+    out = bytearray()
+    i = 0
+    while i < len(lit):
+        c = lit[i]
+        if c != "\\":
+            out += c.encode("utf-8")
+            i += 1
+            continue
+        i += 1
+        if i >= len(lit):
+            break
+        e = lit[i]
+        i += 1
+        if e == "n":
+            out.append(10)
+        elif e == "r":
+            out.append(13)
+        elif e == "t":
+            out.append(9)
+        elif e == "0":
+            out.append(0)
+        elif e in "\\'\"":
+            out += e.encode()
+        elif e == "x" and i + 2 <= len(lit):
+            try:
+                out.append(int(lit[i:i + 2], 16))
+            except ValueError:
+                pass
+            i += 2
+        elif e == "u" and i < len(lit) and lit[i] == "{":
+            j = lit.find("}", i)
+            try:
+                out += chr(int(lit[i + 1:j].replace("_", ""), 16)).encode("utf-8")
+            except ValueError:
+                pass
+            i = j + 1 if j > 0 else len(lit)
+        elif e == "\n":
+            while i < len(lit) and lit[i].isspace():
+                i += 1
+    return bytes(out)
+
+
+def dictionary():
+    """byte strings the CURRENT source mentions as literals (string / byte-string / char literals, integer literals that
+       fit a byte, and comma-separated runs of those) in the library sources of both crates — fed to the generators of
+       the correspondence checks as a dictionary, so that constants the code under test special-cases are exercised"""
+    toks = set()
+    for c in CRATES:
+        for f in sorted(glob.glob(os.path.join(REPO, c, "src", "**", "*.rs"), recursive=True)):
+            src = open(f, encoding="utf-8", errors="replace").read()
+            lx = lex(src)
+            for kind, lit, _ in LAST_LITERALS:
+                b = unescape(lit)
+                if 1 <= len(b) <= 16:
+                    toks.add(b)
+            run = []
+
+            def flush():
+                if 2 <= len(run) <= 16:
+                    toks.add(bytes(run))
+                run.clear()
+            prev_sep = True
+            for kind, text, _ in lx:
+                if kind == "num":
+                    t = re.sub(r"_?(u8|i8|u16|u32|u64|usize|i16|i32|i64|isize)$", "", text).replace("_", "")
+                    try:
+                        tl = t.lower()
+                        v = int(tl, 16) if tl.startswith("0x") else (int(tl[2:], 8) if tl.startswith("0o") else (int(tl[2:], 2) if tl.startswith("0b") else int(tl)))
+                    except ValueError:
+                        v = None
+                    if v is not None and 0 <= v <= 255:
+                        toks.add(bytes([v]))
+                        if not prev_sep:
+                            flush()
+                        run.append(v)
+                    else:
+                        flush()
+                    prev_sep = False
+                elif kind == "punct" and text == ",":
+                    prev_sep = True
+                elif kind == "punct" and text in "[(":
+                    flush()
+                    prev_sep = True
+                else:
+                    flush()
+                    prev_sep = False
+            flush()
+    return sorted(toks, key=lambda b: (len(b), b))
 
 
 def rust_files():
@@ -374,6 +473,13 @@ def lint():
 if __name__ == "__main__":
     if "--gen" in sys.argv:
         gen()
+    elif "--dict" in sys.argv:
+        d = dictionary()
+        k = sys.argv.index("--dict")
+        out = sys.argv[k + 1] if k + 1 < len(sys.argv) else os.path.join(VERIF, ".cache", "dict.txt")
+        os.makedirs(os.path.dirname(out), exist_ok=True)
+        open(out, "w").write("".join(t.hex() + "\n" for t in d))
+        print(json.dumps({"dict": out, "tokens": len(d), "multi_byte": [t.hex() for t in d if len(t) > 1][:80]}))
     elif "--lint" in sys.argv:
         lint()
     else:
